@@ -1108,7 +1108,12 @@ class NumpyModel:
         if name in ('astype',):
             t = args[0] if args else kwargs.get('dtype')
             tn = t.name if (t is not None and t.ty == 'builtin') else None
-            out = recv.w(deps=d, store='fresh', fresh=True, dtype=tn or recv.dtype)
+            cp = kwargs.get('copy')
+            if cp is not None and has_const(cp) and not cval(cp):
+                # astype(..., copy=False) returns the array itself when the dtype already matches: still the caller's storage
+                out = recv.w(deps=d, dtype=tn or recv.dtype, view_of=recv.store)
+            else:
+                out = recv.w(deps=d, store='fresh', fresh=True, dtype=tn or recv.dtype)
             if tn == 'int':
                 out = out.w(cast='int', cast_of=recv)
             return out
